@@ -20,7 +20,7 @@ def run(R, ctx):
              "refused-command scenarios (a wrong-typed source behind good ones, destination among the sources, then a full dump: a refused command changes nothing)")
 
     rule = R.rule
-    concsuite.run_conc(R, ctx, "set-addrem", ['addrem', 'storeacc'], (3, 12), race=False)
+    concsuite.run_conc(R, ctx, "set-addrem", ['addrem', 'storeacc', 'bigmulti'], (3, 12), race=False)
     R.rule = rule + " Concurrent scenario(s) addrem, storeacc (STORE forms accumulating into a destination that is one of their sources, several clients on one destination) of the conc engine (see C05): the family's containers under concurrent clients, verdict by invariants that need no history search."
 
 def replay(R, payload):
